@@ -464,6 +464,13 @@ func runC16(env *Env) {
 			continue
 		}
 		back := val.Value()
+		// a reader editing the value it read must not change what is stored (no aliasing)
+		before := fmt.Sprintf("%#v", c16Norm(back))
+		c16Scribble(back)
+		if again := fmt.Sprintf("%#v", c16Norm(val.Value())); again != before && !strings.Contains(term, "FBad") {
+			rep.Violate("C16-aliasing", cs, fmt.Sprintf("after the reader edited its copy the stored value reads back %s instead of %s", again, before))
+		}
+		back = val.Value()
 		// direct oracle: untyped storage of an encodable value must read back equal (ints as ints)
 		if declared == 0 && !strings.Contains(term, "VOther") && !strings.Contains(term, "FBad") && !strings.Contains(term, "VPtr (VPtr") {
 			exp := v
@@ -486,6 +493,23 @@ func runC16(env *Env) {
 	c16Engine(env, rep)
 	env.WriteCases(rep, "", "Corr.C16corr", "nat * gv * nat * cv", items, "c16_mismatches", "Open Scope Z_scope.")
 	env.WriteReport(rep)
+}
+
+// mutate a read-back value in place, as a careless reader would
+func c16Scribble(v any) {
+	switch x := v.(type) {
+	case []any:
+		for i := range x {
+			c16Scribble(x[i])
+			x[i] = "scribbled"
+		}
+	case map[string]any:
+		for k := range x {
+			c16Scribble(x[k])
+			x[k] = "scribbled"
+		}
+		x["__scribble"] = 1
+	}
 }
 
 // only scalars, []any, []int, map[string]any all the way down (no structs, pointers, channels, nils)
@@ -620,6 +644,15 @@ func c16Engine(env *Env, rep *Report) {
 			want := schema.NewValue(rv)
 			if fmt.Sprintf("%#v", got.Value()) != fmt.Sprintf("%#v", want.Value()) {
 				rep.Violate("C16-engine", cs, fmt.Sprintf("result %s: stored %#v, NewValue gives %#v", name, got.Value(), want.Value()))
+			}
+		}
+		// a reader editing what GetVariable returned must not change the stored variable
+		if v1, ok := in.P.Locator().GetVariable("r2"); ok {
+			b1 := fmt.Sprintf("%#v", v1)
+			c16Scribble(v1)
+			v2, _ := in.P.Locator().GetVariable("r2")
+			if b2 := fmt.Sprintf("%#v", v2); b1 != b2 {
+				rep.Violate("C16-aliasing", cs, fmt.Sprintf("variable r2 changed after a reader edited its copy: %s -> %s", b1, b2))
 			}
 		}
 		// isolation: a second instance does not see the first one's variables
